@@ -119,6 +119,7 @@ class ModeSys(System):
             if m['n'] > 0:
                 ops += [('nested_rw_assign',)]
         ops += [('mode', 'w'), ('metamode', 'w')]       # invalid modes: refused, nothing changes
+        ops += [('mode_in_ctx', 'r'), ('mode_in_ctx', 'r+')]
         return ops, dis
 
     # ------------------------------------------------------------------ step
@@ -181,6 +182,23 @@ class ModeSys(System):
                 return StepResult(label, [viol('mode', opdesc, pre, label, f'{opdesc}: {val!r}')], diverged=True)
             newm['mmode'] = op[1]
             self.model = newm
+            return StepResult(label)
+        if kind == 'mode_in_ctx':
+            # the mode is assigned while the data are held open by a context; it must take effect like any assignment
+            def sw():
+                with (h.open_array() if arr else h.open_arrays()):
+                    h.accessmode = op[1]
+            what, val = outcome_of(sw)
+            label = what if what == 'returns' else f'raises:{exc_class(val)}'
+            if what == 'raises':
+                return StepResult(label, [viol('mode', opdesc, pre, f'{label} when assigning the access mode inside a context',
+                                               f'{opdesc} in state [{pre}]: {val!r}')], diverged=True)
+            newm['mode'] = newm['mmode'] = op[1]
+            self.model = newm
+            got = (h.accessmode, h.metadata.accessmode) + ((h._values.accessmode, h._indices.accessmode) if not arr else ())
+            if any(g != op[1] for g in got):
+                return StepResult(label, [viol('mode', opdesc, pre, 'mode only partly switched', f'{opdesc}: modes now {got}')],
+                                  diverged=True)
             return StepResult(label)
         if kind in ('mode', 'reopen_default', 'reopen_rw'):
             if kind == 'mode':
